@@ -78,6 +78,19 @@ func (v *globValidator) invalidRefChar(c rune, why string) {
 	v.error(msg)
 }
 
+// checkCharInMatch checks a character listed in character match [...]. Line breaks are not allowed
+// anywhere in a pattern and characters which are invalid for Git ref names cannot be matched.
+func (v *globValidator) checkCharInMatch(c rune) {
+	switch c {
+	case '\r', '\n':
+		v.unexpected(c, "content of character match []", "newline cannot be contained")
+	case ' ', '\t', '~', '^', ':':
+		if v.isRef {
+			v.invalidRefChar(c, "ref name cannot contain spaces, ~, ^, :, [, ?, *")
+		}
+	}
+}
+
 func (v *globValidator) init(pat string) {
 	v.errs = []InvalidGlobPattern{}
 	v.prec = false
@@ -138,6 +151,7 @@ func (v *globValidator) validateNext() bool {
 				v.unexpected(c, "end of character match []", "missing ]")
 				return false
 			default:
+				v.checkCharInMatch(c)
 				if v.scan.Peek() != '-' {
 					// in case of single character
 					chars++
@@ -158,6 +172,7 @@ func (v *globValidator) validateNext() bool {
 					// do nothing
 				default:
 					c = v.scan.Next() // eat end of range
+					v.checkCharInMatch(c)
 					if s > c {
 						why := fmt.Sprintf("start of range %q (%d) is larger than end of range %q (%d)", s, s, c, c)
 						v.unexpected(c, "character range in []", why)
